@@ -217,7 +217,7 @@ func (g G) planMix(prop string, o *mixOpts) *Plan {
 			}
 			if fp > 0 && g.chance(lab+".fa", fp) {
 				m.FaultAt = g.rng(lab+".fan", 1, 4)
-				m.FaultKind = g.pick(lab+".fak", "err", "err", "nil_record", "key_without_cert", "cert_without_key", "empty_cert", "partial_err", "err_canceled", "err_notfound", "err_deadline", "err_eof")
+				m.FaultKind = g.pick(lab+".fak", "err", "err", "nil_record", "key_without_cert", "cert_without_key", "empty_cert", "partial_err", "err_canceled", "err_notfound", "err_deadline", "err_eof", "err_text")
 			}
 			if g.chance(lab+".dl", o.deadlinePct) {
 				m.DeadlineNs = int64(g.pick2ms(lab + ".dlv"))
